@@ -5,7 +5,7 @@
    with ProcessSigPool calls, from any genesis set.  [delivered] is the sequence of commit
    callbacks; [blocks] is what Store.GetBlock reports. *)
 From Coq Require Import ZArith List Bool Sorted.
-From V Require Import Model.ZMap Model.Quorum Model.HgImpl Proofs.BlockInv Proofs.RoundOrder.
+From V Require Import Model.ZMap Model.Quorum Model.HgImpl Proofs.BlockInv Proofs.RoundOrder Proofs.TidyC02.
 Import ListNotations.
 Open Scope Z_scope.
 
@@ -34,6 +34,49 @@ Theorem C02_immutable : forall self_ genesis oracle_ ops ops' k d,
             body b = body d /\ sigs_incl d b.
 Proof. exact delivered_block_immutable. Qed.
 Print Assumptions C02_immutable.
+
+(* "consecutive indexes from 0, no gaps" as one equation: the delivery sequence carries the
+   indexes 0, 1, ..., n-1 in this order, n = last stored index + 1.  Over the whole [hrun]
+   (insertions and ProcessSigPool calls), like C02_consecutive. *)
+Theorem C02_no_gaps : forall self_ genesis oracle_ ops,
+  let st := hrun (init_hg self_ genesis oracle_) ops in
+  map b_index (delivered st) = map Z.of_nat (seq 0 (length (delivered st))) /\
+  Z.of_nat (length (delivered st)) = last_block st + 1.
+Proof. exact hrun_delivered_indexes. Qed.
+Print Assumptions C02_no_gaps.
+
+(* the delivery sequence is append-only *)
+Theorem C02_append_only : forall self_ genesis oracle_ ops ops',
+  exists l, delivered (hrun (init_hg self_ genesis oracle_) (ops ++ ops')) =
+            delivered (hrun (init_hg self_ genesis oracle_) ops) ++ l.
+Proof. exact hrun_delivered_append_only. Qed.
+Print Assumptions C02_append_only.
+
+(* C02_immutable field by field ([body] = every field but b_sigs): only b_sigs may change, and it
+   only grows.  Covers b_committed / b_receipts / b_bodyid (what commit filled in) as well. *)
+Theorem C02_block_immutable_after_delivery : forall self_ genesis oracle_ ops ops' k d,
+  nth_error (delivered (hrun (init_hg self_ genesis oracle_) ops)) k = Some d ->
+  nth_error (delivered (hrun (init_hg self_ genesis oracle_) (ops ++ ops'))) k = Some d /\
+  exists b, zget (Z.of_nat k) (blocks (hrun (init_hg self_ genesis oracle_) (ops ++ ops'))) = Some b /\
+    b_index b = b_index d /\ b_rr b = b_rr d /\ b_ts b = b_ts d /\ b_txs b = b_txs d /\
+    b_itxs b = b_itxs d /\ b_frame b = b_frame d /\ b_peers b = b_peers d /\
+    b_committed b = b_committed d /\ b_receipts b = b_receipts d /\ b_bodyid b = b_bodyid d /\
+    (forall v o, aget v (b_sigs d) = Some o -> aget v (b_sigs b) = Some o).
+Proof. exact block_immutable_after_delivery. Qed.
+Print Assumptions C02_block_immutable_after_delivery.
+
+(* [body] forgets nothing but b_sigs *)
+Theorem C02_body_is_all_but_sigs : forall b d,
+  body b = body d <->
+  (b_index b = b_index d /\ b_rr b = b_rr d /\ b_ts b = b_ts d /\ b_txs b = b_txs d /\
+   b_itxs b = b_itxs d /\ b_frame b = b_frame d /\ b_peers b = b_peers d /\
+   b_committed b = b_committed d /\ b_receipts b = b_receipts d /\ b_bodyid b = b_bodyid d).
+Proof.
+  exact (fun b d => conj (body_fields b d)
+    (fun H => match H with conj F1 (conj F2 (conj F3 (conj F4 (conj F5 (conj F6 (conj F7 (conj F8 (conj F9 F10)))))))) =>
+                fields_body b d F1 F2 F3 F4 F5 F6 F7 F8 F9 F10 end)).
+Qed.
+Print Assumptions C02_body_is_all_but_sigs.
 
 (* round-received strictly increases along the delivery sequence (hence no round is delivered
    twice and blocks come in round order).  Proofs/RoundOrder.v: the pending-rounds queue is strictly
@@ -77,3 +120,11 @@ Example C02_example_queue :
   let st := hrun (init_hg 0 c02_g [7; 8; 9]) c02_ops in
   (failed st, pending st, last_consensus st, last_round st) = (false, [(4, false); (5, false)], Some 3, 5).
 Proof. vm_compute. reflexivity. Qed.
+(* on that history (which contains a ProcessSigPool call): indexes 0,1; the stored copy of block 0
+   has the delivered body and has kept its signature *)
+Example C02_example_immutable :
+  let st := hrun (init_hg 0 c02_g [7; 8; 9]) c02_ops in
+  map b_index (delivered st) = [0; 1] /\ last_block st = 1 /\
+  option_map (fun b => (b_bodyid b, b_committed b, b_sigs b)) (zget 0 (blocks st)) = Some (7, true, [(0, 7)]) /\
+  option_map (fun b => (b_bodyid b, b_committed b, b_sigs b)) (nth_error (delivered st) 0) = Some (7, true, [(0, 7)]).
+Proof. vm_compute. repeat split; reflexivity. Qed.
